@@ -143,7 +143,7 @@ func VerifC09Format(n, tilde, k0, k1 int) {
 	}
 	zzC09FmtCarves(ctl, k0, k1, ints)
 	zzC09Streams()
-	zzC09Guarded(slip.NewScope(), form, ints)
+	zzC09Guarded(slip.NewScope(), form, zzC09FmtDecis)
 }
 
 // VerifC09FormatRadix: "~" + (n-2) symbolic bytes + "r" with the concrete
@@ -159,7 +159,7 @@ func VerifC09FormatRadix(n, g int) {
 	form := slip.List{slip.Symbol("format"), nil, slip.String(ctl), slip.Fixnum(zzC09FmtGrid[g])}
 	zzC09RadixCarves(ctl, zzC09FmtGrid[g])
 	zzC09Streams()
-	zzC09Guarded(slip.NewScope(), form, nil)
+	zzC09Guarded(slip.NewScope(), form, zzC09FmtDecis)
 }
 
 // zzC09FmtScan walks a control string with the simple model of the flat
@@ -177,7 +177,7 @@ func VerifC09FormatRadix(n, g int) {
 // parser rejects (second `:` or `@`, `,` after a modifier), and at a directive
 // that raises a condition for the argument kind it gets (c without a
 // character, $ r without a number, p r without an argument).
-func zzC09FmtScan(ctl []byte, kinds []int) (missing bool, vargs int) {
+func zzC09FmtScan(ctl []byte, kinds []int, argInt []int64) (missing bool, vargs int, zeroInc bool) {
 	argPos := 0
 	i := 0
 	for i < len(ctl) {
@@ -187,7 +187,8 @@ func zzC09FmtScan(ctl []byte, kinds []int) (missing bool, vargs int) {
 		}
 		i++
 		colon, at := false, false
-		params := 0
+		var pv []int64 // parameter values
+		var pk []int   // 0 omitted (or nil argument), 1 integer, 2 character
 		var d byte
 		for i < len(ctl) {
 			b := ctl[i]
@@ -210,20 +211,40 @@ func zzC09FmtScan(ctl []byte, kinds []int) (missing bool, vargs int) {
 				if colon || at {
 					return
 				}
+				if ctl[i-2] == '~' || ctl[i-2] == ',' {
+					pv = append(pv, 0)
+					pk = append(pk, 0)
+				}
 				continue
 			}
 			if b == '#' {
-				params++
+				pv = append(pv, int64(len(kinds)-argPos))
+				pk = append(pk, 1)
 				continue
 			}
 			if b == 'v' {
-				params++
 				if argPos < 0 {
+					pv = append(pv, 0)
+					pk = append(pk, 0)
 					continue
 				}
 				if len(kinds) <= argPos {
 					missing = true
 					return
+				}
+				switch kinds[argPos] {
+				case 0, 6:
+					pv = append(pv, argInt[argPos])
+					pk = append(pk, 1)
+				case 3:
+					pv = append(pv, 0)
+					pk = append(pk, 0)
+				case 4:
+					pv = append(pv, 0)
+					pk = append(pk, 2)
+				default:
+					pv = append(pv, 0)
+					pk = append(pk, 3) // rejected by every directive that looks at it
 				}
 				vargs |= 1 << argPos
 				argPos++
@@ -240,19 +261,36 @@ func zzC09FmtScan(ctl []byte, kinds []int) (missing bool, vargs int) {
 				if cnt != 1 {
 					return
 				}
-				params++
+				pv = append(pv, 0)
+				pk = append(pk, 2)
 				continue
 			}
 			if b == '-' || ('0' <= b && b <= '9') {
-				// a number: the real parser reads up to the next non-parameter
-				// byte and rejects anything strconv.ParseInt rejects
-				if b == '-' && (len(ctl) <= i || ctl[i] < '0' || '9' < ctl[i]) {
-					return
-				}
-				for i < len(ctl) && '0' <= ctl[i] && ctl[i] <= '9' {
+				// a number token runs up to the next directive byte and must
+				// be a decimal integer
+				j := i - 1
+				for i < len(ctl) && zzC09FmtDirByte[ctl[i]] == 0 {
 					i++
 				}
-				params++
+				k := j
+				if ctl[k] == '-' {
+					k++
+				}
+				if k == i {
+					return
+				}
+				var x int64
+				for ; k < i; k++ {
+					if ctl[k] < '0' || '9' < ctl[k] {
+						return
+					}
+					x = x*10 + int64(ctl[k]-'0')
+				}
+				if ctl[j] == '-' {
+					x = -x
+				}
+				pv = append(pv, x)
+				pk = append(pk, 1)
 				continue
 			}
 			d = b
@@ -274,6 +312,14 @@ func zzC09FmtScan(ctl []byte, kinds []int) (missing bool, vargs int) {
 			if d == '$' && k != 0 && k != 5 && k != 6 {
 				return
 			}
+			if (d == 'a' || d == 's') && 0 < len(pv) {
+				// ~mincol,colinc A: a zero column increment never reaches mincol
+				if 1 < len(pv) && pk[0] == 1 && pk[1] == 1 && pv[1] == 0 && (len(pv) < 3 || pk[2] <= 1) && (len(pv) < 4 || pk[3] == 0 || pk[3] == 2) &&
+					int64(zzC09FmtOutLen(k, argInt[argPos], d, colon)) < pv[0] {
+					zeroInc = true
+				}
+				return // other parameter combinations: outside the simple model
+			}
 			argPos++
 		case 2: // checks for its argument itself
 			if d == 'p' && colon {
@@ -288,7 +334,7 @@ func zzC09FmtScan(ctl []byte, kinds []int) (missing bool, vargs int) {
 			argPos++
 		case 3: // takes no argument
 		case 4: // ~* without a parameter moves the argument pointer
-			if 0 < params || (colon && at) {
+			if 0 < len(pv) || (colon && at) {
 				return
 			}
 			if colon {
@@ -327,6 +373,32 @@ func zzC09FmtScan(ctl []byte, kinds []int) (missing bool, vargs int) {
 		}
 	}
 	return
+}
+
+// zzC09FmtOutLen: number of bytes ~A / ~S print for a pool argument.
+func zzC09FmtOutLen(kind int, x int64, d byte, colon bool) int {
+	switch kind {
+	case 0, 6:
+		return len(strconv.FormatInt(x, 10))
+	case 1:
+		if d == 's' {
+			return 4
+		}
+		return 2
+	case 2:
+		return 5
+	case 3:
+		if colon {
+			return 2
+		}
+		return 3
+	case 4:
+		if d == 's' {
+			return 3
+		}
+		return 1
+	}
+	return 3
 }
 
 // zzC09FmtDirByte: the bytes that end a character parameter (the x entries of
@@ -393,7 +465,7 @@ func VerifC09FormatTab(n, prefix, g int) {
 	}
 	zzC09TabCarves(mid, ints, prefix)
 	zzC09Streams()
-	zzC09Guarded(slip.NewScope(), form, ints)
+	zzC09Guarded(slip.NewScope(), form, zzC09FmtDecis)
 }
 
 // zzC09TabCarves: regions of the recorded findings of C09.format.tab, from an
@@ -499,53 +571,96 @@ func zzC09TabCarves(mid []byte, ints []int64, prefix int) {
 // zzC09FmtCarves: regions of the recorded findings of C09.format.
 func zzC09FmtCarves(ctl []byte, k0, k1 int, ints []int64) {
 	var kinds []int
-	if 0 <= k0 {
-		kinds = append(kinds, k0)
-		if 0 <= k1 {
-			kinds = append(kinds, k1)
+	var argInt []int64
+	j := 0
+	for _, k := range []int{k0, k1} {
+		if k < 0 {
+			break
+		}
+		kinds = append(kinds, k)
+		switch k {
+		case 0:
+			argInt = append(argInt, ints[j])
+			j++
+		case 6:
+			argInt = append(argInt, 7)
+		default:
+			argInt = append(argInt, 0)
 		}
 	}
-	missing, vargs := zzC09FmtScan(ctl, kinds)
+	missing, vargs, zeroInc := zzC09FmtScan(ctl, kinds, argInt)
 	vrt.Carve("C09-format-missing-argument", missing)
 	// a count/width parameter taken from a fixnum argument above 2^31
 	huge := false
-	j := 0
 	for a := 0; a < len(kinds); a++ {
-		if kinds[a] == 0 {
-			if vargs&(1<<a) != 0 && zzC09Huge < ints[j] {
-				huge = true
-			}
-			j++
+		if kinds[a] == 0 && vargs&(1<<a) != 0 && zzC09Huge < argInt[a] {
+			huge = true
 		}
 	}
 	vrt.Carve("C09-format-parameter-unbounded", huge)
+	// format never returns: a zero column increment (~5,0A), or ~{~} (an
+	// iteration whose body consumes nothing) over a non-empty list
+	iter := len(ctl) == 4 && ctl[0] == '~' && ctl[1] == '{' && ctl[2] == '~' && ctl[3] == '}' && k0 == 2
+	vrt.Carve("C09-format-never-returns", zeroInc || iter)
 }
 
 // zzC09RadixCarves: regions of the recorded findings of C09.format.radix.
 func zzC09RadixCarves(ctl []byte, x int64) {
-	at := false
-	for i := 1; i+1 < len(ctl); i++ {
-		if ctl[i] == '@' {
-			at = true
+	// walk the directives: those that take no argument (% & | ~ t ^ newline)
+	// are passed over; the first other one must be the radix directive, its
+	// modifiers decide (with @ it prints Roman numerals)
+	plain := false
+	i := 0
+walk:
+	for i < len(ctl) {
+		if ctl[i] != '~' {
+			i++
+			continue
+		}
+		i++
+		at := false
+		for i < len(ctl) {
+			b := ctl[i]
+			i++
+			if b == '@' {
+				at = true
+				continue
+			}
+			if b == ':' || b == ',' || b == '#' || b == '-' || ('0' <= b && b <= '9') {
+				continue
+			}
+			if b == '\'' && i < len(ctl) && zzC09FmtDirByte[ctl[i]] == 0 {
+				i++ // a character parameter of one byte
+				continue
+			}
+			if b == 'r' {
+				plain = !at
+				break walk
+			}
+			if zzC09FmtClass[b] == 3 {
+				continue walk
+			}
+			break walk
 		}
 	}
-	vrt.Carve("C09-format-radix-thousands", !at && x != 0 && x%1000 == 0)
+	vrt.Carve("C09-format-radix-thousands", plain && x != 0 && x%1000 == 0)
 }
 
 // ---- common runner ----
 
 const (
 	zzC09Steps     = 400000 // SSA instructions per guarded evaluation
-	zzC09Decisions = 150    // symbolic decisions per guarded evaluation
+	zzC09Decisions = 150    // symbolic decisions per guarded evaluation (index, tuple)
+	zzC09FmtDecis  = 450    // the same for format: a count parsed from symbolic digits makes every loop test a decision
 	zzC09Small     = 8      // integers in (zzC09Small, 2^31] are not explored (see zzC09Gap)
 	zzC09Huge      = int64(1) << 31
 )
 
-// zzC09Guarded evaluates form under the guard; ints are the symbolic integers
-// of the case (sizes, counts, indexes).
-func zzC09Guarded(scope *slip.Scope, form slip.Object, ints []int64) {
+// zzC09Guarded evaluates form under the guard with the given budget of
+// symbolic decisions.
+func zzC09Guarded(scope *slip.Scope, form slip.Object, decisions int) {
 	class := zzC09Value
-	cut := zzC09Guard(zzC09Steps, zzC09Decisions, func() { class = zzC09Eval(scope, form) })
+	cut := zzC09Guard(zzC09Steps, decisions, func() { class = zzC09Eval(scope, form) })
 	vrt.Reach("evaluated")
 	vrt.Assert(cut != 1, "allocation whose size can exceed 2^31 elements")
 	if cut == 2 {
@@ -727,7 +842,7 @@ var zzC09IdxRows = []zzC09IdxRow{
 	{"(bit-and S U)", "b"},                                                        // 132
 	{"(bit-not S)", "b"},                                                          // 133
 	{"(bit-xor S U S)", "b"},                                                      // 134
-	{"(expt 2 A)", "-"},                                                           // 135
+	{"(make-string A :initial-element #\\é)", "-"},                                // 135
 	// multi-byte strings (byte offsets versus character indexes), 136..
 	{"(count #\\a \"éa\" :start A)", "-"},                       // 136
 	{"(string-upcase \"éa\" :start A :end B)", "-"},             // 137
@@ -845,7 +960,7 @@ func VerifC09Index(row, kind, n int) {
 	}
 	form := zzC09Subst(tmpl, env)
 	zzC09IdxCarves(row, kind, n, ints)
-	zzC09Guarded(scope, form, ints)
+	zzC09Guarded(scope, form, zzC09Decisions)
 }
 
 // zzC09IdxCarves: regions of the recorded findings of C09.index, by family:
@@ -874,10 +989,7 @@ func zzC09IdxCarves(row, kind, n int, ints []int64) {
 	vrt.Carve("C09-index-start-greater-than-end", startGtEnd)
 	// fixnum division by a zero divisor
 	divZero := false
-	switch row {
-	case 102, 103, 104, 105, 106, 107:
-		divZero = b == 0
-	case 112:
+	if row == 112 { // (random 0); floor ceiling truncate round rem were repaired in d4bb7f0
 		divZero = a == 0
 	}
 	vrt.Carve("C09-integer-divide-by-zero", divZero)
@@ -890,8 +1002,12 @@ func zzC09IdxCarves(row, kind, n int, ints []int64) {
 		negative = a < 0 && 1 <= n
 	case 89:
 		negative = a < 0 && (kind == 1 || kind == 3)
-	case 76, 79, 80, 82, 83, 108, 113, 124:
+	case 80, 82, 113: // dpb mask-field deposit-field with a negative byte size never return
 		negative = a < 0
+	case 79: // (ldb (byte size 2) x): make([]byte, size/8+1)
+		negative = a <= -16
+	case 76, 83, 108: // dpb deposit-field mask-field with a byte position <= -8: SetBit index
+		negative = a <= -8
 	}
 	// (ash x most-negative-fixnum): the negated count is negative again
 	if row == 75 {
@@ -901,7 +1017,7 @@ func zzC09IdxCarves(row, kind, n int, ints []int64) {
 	// a size above 2^31 is allocated (or looped over) without a limit
 	huge := false
 	switch row {
-	case 44, 46, 48, 49, 50, 51, 76, 77, 79, 80, 82, 83, 87, 88, 108, 109, 113, 124:
+	case 44, 46, 48, 49, 50, 51, 76, 77, 79, 80, 82, 83, 87, 88, 108, 109, 113, 135:
 		huge = zzC09Huge < a
 	case 89:
 		huge = zzC09Huge < a && kind == 3
@@ -1200,5 +1316,5 @@ func VerifC09FormatOne(b1, b2, g int) {
 	form := slip.List{slip.Symbol("format"), nil, slip.String(ctl), slip.Fixnum(zzC09FmtGrid[g])}
 	zzC09Streams()
 	vrt.Note("ctl", string(ctl))
-	zzC09Guarded(slip.NewScope(), form, nil)
+	zzC09Guarded(slip.NewScope(), form, zzC09FmtDecis)
 }
